@@ -14,182 +14,17 @@ import (
 	"os/exec"
 	"strings"
 
+	"verif/internal/grammar"
 	"verif/internal/regen"
 	"verif/internal/vf"
 )
 
-type M = map[string]any
-
-func subsets[T any](xs []T) [][]T {
-	out := [][]T{{}}
-	for _, x := range xs {
-		n := len(out)
-		for i := 0; i < n; i++ {
-			out = append(out, append(append([]T{}, out[i]...), x))
-		}
-	}
-	return out
-}
-
-func merge(ms ...M) M {
-	out := M{}
-	for _, m := range ms {
-		for k, v := range m {
-			out[k] = v
-		}
-	}
-	return out
-}
+type M = grammar.M
 
 type entry struct {
 	ID     int    `json:"id"`
 	Kind   string `json:"kind"` // body, query, path, header
 	Schema M      `json:"schema"`
-}
-
-func grammar(thorough bool) (schemas []M, leaves []M, comps M) {
-	for _, kws := range subsets([]M{{"minimum": 0}, {"maximum": 5}, {"multipleOf": 2}}) {
-		s := merge(append([]M{{"type": "integer"}}, kws...)...)
-		leaves = append(leaves, s)
-		if _, ok := s["minimum"]; ok {
-			leaves = append(leaves, merge(s, M{"exclusiveMinimum": true}))
-		}
-		if _, ok := s["maximum"]; ok {
-			leaves = append(leaves, merge(s, M{"exclusiveMaximum": true}))
-		}
-		if len(kws) == 2 && s["minimum"] != nil && s["maximum"] != nil {
-			leaves = append(leaves, merge(s, M{"exclusiveMinimum": true, "exclusiveMaximum": true}))
-		}
-	}
-	for _, kws := range subsets([]M{{"minimum": -1}, {"maximum": 2}, {"multipleOf": 0.5}}) {
-		s := merge(append([]M{{"type": "number"}}, kws...)...)
-		leaves = append(leaves, s)
-		if _, ok := s["minimum"]; ok {
-			leaves = append(leaves, merge(s, M{"exclusiveMinimum": true}))
-		}
-		if _, ok := s["maximum"]; ok {
-			leaves = append(leaves, merge(s, M{"exclusiveMaximum": true}))
-		}
-	}
-	for _, kws := range subsets([]M{{"minLength": 1}, {"maxLength": 2}, {"pattern": "^a"}}) {
-		leaves = append(leaves, merge(append([]M{{"type": "string"}}, kws...)...))
-	}
-	leaves = append(leaves, M{"type": "string", "enum": []any{"a", "b"}}, M{"type": "integer", "enum": []any{1, 2}}, M{"type": "boolean"},
-		M{"type": "string", "pattern": "b$", "minLength": 2}, M{"type": "string", "pattern": "^[ab]+$"}, M{"type": "string", "maxLength": 0},
-		M{"type": "string", "minLength": 2, "maxLength": 3}, M{"type": "integer", "format": "int32", "minimum": -1}, M{"type": "integer", "format": "int64", "multipleOf": 5},
-		M{"type": "number", "format": "float", "maximum": 0.5}, M{"type": "number", "multipleOf": 0.25, "minimum": 0})
-	nLeaf := len(leaves)
-	schemas = append(schemas, leaves...)
-	for i := 0; i < nLeaf; i++ {
-		schemas = append(schemas, merge(leaves[i], M{"nullable": true}))
-	}
-	small := []M{{"type": "integer", "minimum": 0, "maximum": 5}, {"type": "string", "minLength": 1, "maxLength": 2}, {"type": "boolean"}, {"type": "string", "nullable": true}, {"type": "number", "multipleOf": 0.5}}
-	for _, it := range small {
-		for _, kws := range subsets([]M{{"minItems": 1}, {"maxItems": 2}, {"uniqueItems": true}}) {
-			schemas = append(schemas, merge(append([]M{{"type": "array", "items": it}}, kws...)...))
-		}
-		schemas = append(schemas, M{"type": "array", "items": it, "nullable": true, "minItems": 1}, M{"type": "array", "items": it, "nullable": true, "maxItems": 1})
-	}
-	for _, p := range small[:3] {
-		for _, q := range small[1:4] {
-			for _, req := range subsets([]string{"p", "q"}) {
-				for _, ap := range []any{nil, false, true, M{"type": "integer"}} {
-					o := M{"type": "object", "properties": M{"p": p, "q": q}}
-					if len(req) > 0 {
-						o["required"] = req
-					}
-					if ap != nil {
-						o["additionalProperties"] = ap
-					}
-					schemas = append(schemas, o)
-				}
-			}
-		}
-	}
-	for _, kws := range subsets([]M{{"minProperties": 1}, {"maxProperties": 2}}) {
-		schemas = append(schemas, merge(append([]M{{"type": "object", "properties": M{"p": small[0], "q": small[1], "z": small[2]}}}, kws...)...))
-		schemas = append(schemas, merge(append([]M{{"type": "object", "additionalProperties": M{"type": "integer", "minimum": 0}}}, kws...)...))
-	}
-	// optional / nullable members of every array flavour (the class that was refused before the fix)
-	for _, arr := range []M{{"type": "array", "items": small[0], "minItems": 1}, {"type": "array", "items": small[1], "maxItems": 1}, {"type": "array", "items": small[0], "minItems": 1, "nullable": true}, {"type": "array", "items": small[2], "uniqueItems": true}} {
-		schemas = append(schemas, M{"type": "object", "properties": M{"p": arr}}, M{"type": "object", "required": []string{"p"}, "properties": M{"p": arr}})
-	}
-	// 9 required members: the required bitset crosses a byte boundary
-	nine := M{}
-	var req9 []string
-	for i := 0; i < 9; i++ {
-		n := fmt.Sprintf("f%d", i)
-		nine[n] = M{"type": "integer"}
-		req9 = append(req9, n)
-	}
-	schemas = append(schemas, M{"type": "object", "properties": nine, "required": req9}, M{"type": "object", "properties": nine, "required": req9[8:]}, M{"type": "object", "properties": nine, "required": req9[:8]})
-	schemas = append(schemas,
-		M{"type": "object", "required": []string{"p"}, "properties": M{"p": M{"type": "object", "required": []string{"q"}, "properties": M{"q": small[0]}}}},
-		M{"type": "array", "items": M{"type": "object", "required": []string{"p"}, "properties": M{"p": small[0]}}, "maxItems": 2},
-		M{"type": "array", "items": M{"type": "array", "items": small[0], "maxItems": 1}},
-		M{"oneOf": []any{M{"type": "string", "minLength": 1}, M{"type": "integer", "minimum": 0}}},
-		M{"anyOf": []any{M{"type": "string", "maxLength": 1}, M{"type": "integer", "maximum": 5}}},
-		M{"oneOf": []any{M{"type": "string"}, M{"type": "integer"}, M{"type": "boolean"}}, "nullable": true},
-		M{"oneOf": []any{
-			M{"type": "object", "required": []string{"p"}, "properties": M{"p": small[0]}},
-			M{"type": "object", "required": []string{"q"}, "properties": M{"q": small[1]}},
-		}},
-		M{"allOf": []any{
-			M{"type": "object", "required": []string{"p"}, "properties": M{"p": small[0]}},
-			M{"type": "object", "required": []string{"q"}, "properties": M{"q": small[1]}},
-		}},
-		M{"oneOf": []any{M{"type": "array", "items": small[0]}, M{"type": "string"}}},
-		M{"oneOf": []any{M{"$ref": "#/components/schemas/Cat"}, M{"$ref": "#/components/schemas/Dog"}}, "discriminator": M{"propertyName": "kind", "mapping": M{"cat": "#/components/schemas/Cat", "dog": "#/components/schemas/Dog"}}},
-	)
-	comps = M{
-		"Tree": M{"type": "object", "required": []string{"v"}, "properties": M{"v": small[0], "kids": M{"type": "array", "items": M{"$ref": "#/components/schemas/Tree"}, "maxItems": 2}}, "additionalProperties": false},
-		"Cat":  M{"type": "object", "required": []string{"kind", "p"}, "properties": M{"kind": M{"type": "string"}, "p": small[0]}},
-		"Dog":  M{"type": "object", "required": []string{"kind", "q"}, "properties": M{"kind": M{"type": "string"}, "q": small[1]}},
-	}
-	schemas = append(schemas, M{"$ref": "#/components/schemas/Tree"})
-	if thorough {
-		// depth 3: every wrapper composition over the small leaves
-		for _, l := range small {
-			schemas = append(schemas,
-				M{"type": "array", "items": M{"type": "object", "properties": M{"p": l}, "required": []string{"p"}}, "minItems": 1},
-				M{"type": "array", "items": M{"type": "object", "properties": M{"p": l}, "additionalProperties": false}},
-				M{"type": "object", "properties": M{"p": M{"type": "array", "items": l, "maxItems": 2, "uniqueItems": true}}, "required": []string{"p"}},
-				M{"type": "object", "properties": M{"p": M{"type": "object", "properties": M{"q": l}, "required": []string{"q"}}}},
-				M{"type": "object", "properties": M{"p": M{"type": "object", "properties": M{"q": l}, "additionalProperties": false}}, "required": []string{"p"}},
-				M{"type": "object", "additionalProperties": M{"type": "array", "items": l, "minItems": 1}},
-				M{"type": "object", "additionalProperties": M{"type": "object", "properties": M{"p": l}, "required": []string{"p"}}, "maxProperties": 1},
-				M{"type": "array", "items": M{"type": "array", "items": l, "minItems": 1}, "maxItems": 2},
-				M{"type": "array", "items": M{"type": "array", "items": M{"type": "array", "items": l}}, "maxItems": 1},
-			)
-			for _, l2 := range small {
-				// integer and number variants overlap in JSON (every integer is a number): discrimination
-				// is ambiguous by schema, outside the property's fragment
-				numeric := func(m M) bool { return m["type"] == "integer" || m["type"] == "number" }
-				if l["type"] != l2["type"] && !(numeric(l) && numeric(l2)) {
-					schemas = append(schemas, M{"oneOf": []any{l, l2}}, M{"type": "object", "properties": M{"p": M{"oneOf": []any{l, l2}}}, "required": []string{"p"}},
-						M{"type": "array", "items": M{"anyOf": []any{l, l2}}, "maxItems": 2})
-				}
-				schemas = append(schemas, M{"allOf": []any{
-					M{"type": "object", "properties": M{"p": l}, "required": []string{"p"}},
-					M{"type": "object", "properties": M{"q": l2}},
-				}})
-			}
-		}
-		for _, p := range small {
-			for _, q := range small {
-				for _, req := range subsets([]string{"p", "q"}) {
-					for _, kws := range subsets([]M{{"minProperties": 1}, {"maxProperties": 1}}) {
-						o := merge(append([]M{{"type": "object", "properties": M{"p": p, "q": q}, "additionalProperties": M{"type": "boolean"}}}, kws...)...)
-						if len(req) > 0 {
-							o["required"] = req
-						}
-						schemas = append(schemas, o)
-					}
-				}
-			}
-		}
-	}
-	return schemas, leaves, comps
 }
 
 const pyCross = `
@@ -225,7 +60,7 @@ json.dump(out, open(sys.argv[2], "w"))
 
 func main() {
 	r := vf.Start("C03", "exploration")
-	schemas, leaves, comps := grammar(r.Thorough())
+	schemas, leaves, comps := grammar.Schemas(r.Thorough())
 	var entries []entry
 	paths := M{}
 	add := func(kind string, s M) {
